@@ -5,6 +5,7 @@
   stdout: one line per case: `<model outcome> @@ <spec verdict>`
 -/
 import FlacModel.Model.StreamReader
+import FlacModel.Spec.Rfc
 
 open Flac
 
@@ -72,6 +73,39 @@ def opStreamrw (f : Fields) (impl : Fields) (implHead : String) (profile : Profi
     if out.startsWith "panic" then out
     else s!"ok stream={impl.get "stream"} offs={impl.get "offs"} lens={impl.get "lens"} {out}"
 
+def deinterleave (ch : Nat) (xs : List Int) : List (List Int) :=
+  (List.range ch).map fun c => (List.range (xs.length / ch)).map fun i => xs.getD (i * ch + c) 0
+
+/-- L0 verdict on one frame the real encoder produced: strict RFC decode must succeed, consume
+    exactly the frame, carry the declared parameters and reproduce the input PCM -/
+def specCheckFrame (bytes : List Nat) (rate ch bps : Nat) (number : Option Nat) (pcm : List Int) : String :=
+  match Spec.specDecode none bytes with
+  | .error e => s!"FAIL spec-rejects-encoder-output {failStr e}"
+  | .ok d =>
+    if d.used != bytes.length then s!"FAIL spec-frame-extent used={d.used} len={bytes.length}"
+    else if d.frame.hdr.rate != rate then s!"FAIL spec-rate {d.frame.hdr.rate}"
+    else if d.frame.hdr.bps != bps then s!"FAIL spec-bps {d.frame.hdr.bps}"
+    else if d.frame.hdr.assign.count != ch then s!"FAIL spec-channels {d.frame.hdr.assign.count}"
+    else if d.frame.hdr.blocking then "FAIL spec-blocking-strategy variable"
+    else if (match number with | some n => d.frame.hdr.number != n | none => false) then s!"FAIL spec-frame-number {d.frame.hdr.number}"
+    else if d.channels != deinterleave ch pcm then "FAIL spec-pcm-differs"
+    else "ok"
+
+def opEncframe (f : Fields) (impl : Fields) (implHead : String) (profile : Profile) : String :=
+  if implHead != "ok" then "model-skip @@ -" else
+  match hexToBytes (impl.get "bytes") with
+  | none => "model-error bad-hex @@ -"
+  | some bytes =>
+    let pcm := parseInts (f.get "pcm")
+    let ch := ((f.get "ch").toNat?).getD 1
+    let verdict := specCheckFrame bytes (((f.get "rate").toNat?).getD 44100) ch (((f.get "bps").toNat?).getD 16)
+                     (some (((f.get "n").toNat?).getD 0)) pcm
+    -- the crate-decoder model on the same bytes (ties Model/Decode to the spec on real output)
+    let m := match decodeFrame profile none bytes with
+      | .ok d => s!"ok dec={joinInts (interleave d.channels)}"
+      | .error e => failStr e
+    s!"{m} @@ {verdict}"
+
 def runCase (line : String) : String :=
   let parts := line.splitOn "\t"
   let caseLine := parts.headD ""
@@ -81,6 +115,7 @@ def runCase (line : String) : String :=
   match op with
   | "streamread" => opStreamread f profile ++ " @@ -"
   | "streamrw" => opStreamrw f impl implHead profile ++ " @@ -"
+  | "encframe" => opEncframe f impl implHead profile
   | _ => "model-skip @@ -"
 
 partial def loop (h : IO.FS.Stream) (out : IO.FS.Stream) : IO Unit := do
